@@ -22,3 +22,11 @@ func VerifBuildRootsLeaves(entries []EntryV3, leafSize int, compression Compress
 func VerifOptimizeDirectories(entries []EntryV3, targetRootLen int, compression Compression) ([]byte, []byte, int) {
 	return optimizeDirectories(entries, targetRootLen, compression)
 }
+
+func VerifParseTilePath(path string) (bool, string, uint8, uint32, uint32, string) {
+	return parseTilePath(path)
+}
+
+func VerifParseTilejsonPath(path string) (bool, string) { return parseTilejsonPath(path) }
+
+func VerifParseMetadataPath(path string) (bool, string) { return parseMetadataPath(path) }
